@@ -120,7 +120,7 @@ def runCase (j : Json) : Except String Json := do
     | .error _ => Json.null
     | .ok (p', k') => boundJ (bind sig p' k')
   pure <| Json.mkObj [
-    ("wf", toJson sig.WF), ("noStructural", toJson sig.noStructural),
+    ("wf", toJson sig.WF), ("noStructural", toJson sig.noStructural), ("capturesCall", toJson sig.capturesCall),
     ("gcaAgrees", toJson (getcallargsAgrees sig pos kw)),
     ("bindingAgrees", toJson (bindingAgrees sig pos kw)), ("posOnlyRespected", toJson (posOnlyRespected sig kw)),
     ("decorate", match decorate sig opts with | .ok _ => "ok" | .error e => excJ e),
